@@ -1,4 +1,5 @@
 import SedVerif.Model.Extinction
+import SedVerif.Model.ExtinctionIO
 import SedVerif.Proofs.Integrate
 import Mathlib.Tactic.Ring
 import Mathlib.Tactic.FieldSimp
@@ -200,6 +201,21 @@ theorem npInterpEdge_xscale (s : K) (hs : 0 < s) (x : K) (tab : List (K × K)) :
     have hn := npInterp_xscale s hs p0.2 (lastD (p0 :: tl) p0).2 x (p0 :: tl)
     simp only [List.map_cons] at hl hn
     simp only [List.map_cons, npInterpEdge, hl, hn]
+
+/-! ### the text-file reader -/
+
+/-- the column selection of `from_file` returns the two columns that were written -/
+theorem selectCols_ok (i j : Nat) : ∀ (rows : List (List K)) (ws cs : List K),
+    rows.map (fun r => r[i]?) = ws.map some → rows.map (fun r => r[j]?) = cs.map some →
+    selectCols i j rows = .ok (ws, cs)
+  | [], ws, cs, hw, hc => by
+    cases ws <;> cases cs <;> simp_all [selectCols]
+  | row :: rows, [], _, hw, _ => by simp at hw
+  | row :: rows, _ :: _, [], _, hc => by simp at hc
+  | row :: rows, w :: ws, c :: cs, hw, hc => by
+    simp only [List.map_cons, List.cons.injEq] at hw hc
+    have ih := selectCols_ok i j rows ws cs hw.2 hc.2
+    simp only [selectCols, hw.1, hc.1, ih]
 
 end Ext
 end SF
